@@ -549,7 +549,8 @@ class Tally:
         self.by_op[op] = self.by_op.get(op, 0) + 1
         kind = impl if isinstance(impl, str) and impl in ("err", "panic", "nan", "none", "hang", "abort", "parse", "b0", "b1", "lt", "eq", "gt") else \
             ("text" if isinstance(impl, str) else "value")
-        self.outcomes[kind] = self.outcomes.get(kind, 0) + 1
+        lo = self.outcomes.setdefault(layer, {})
+        lo[kind] = lo.get(kind, 0) + 1
         if nontrivial:
             self.nontrivial.add((op.split("/")[0], args))
         if impl_rep is not None and model_rep is not None and impl_rep in "SB" and len(impl_rep) == 1:
@@ -870,6 +871,8 @@ def run(ctx):
                             "max_bits": max(v.bit_length() for v in values)},
         "by_operator": dict(sorted(T.by_op.items())),
         "impl_outcomes": T.outcomes,
+        "impl_outcomes_note": "the only panics are NInt-level / % div_floor mod_floor called directly with a zero divisor (the model says Panic there too; "
+                              "the builtins guard them); the language layer has none",
         "producers": prod_stats,
         "representation_compared": T.rep_seen, "representation_mismatches": T.rep_mismatch,
         "hash_stream_is_one_i64_as_modelled": f"{T.hash_model_agree}/{T.hash_model_seen}",
